@@ -142,7 +142,8 @@ def check(prop, tier, seed):
             seen.add(k)
             stims.append({'class': 'tlc_script', 'lazy': r['lazy'], 'script': r['script'], 'calls': len(r['expect']) if r['connect'] == 'ok' and r['expect'] else 5, 'expect': r['expect'], 'expect_connect': r['connect'],
                           'connect_timeout': len(stims) % 3 == 1,       # a third of the channels also have Endpoint::connect_timeout set
-                          'fail_kinds': [['refused'], ['timed_out', 'other'], ['not_found', 'denied', 'reset'], ['other']][len(stims) % 4]})   # io::ErrorKind of failed attempts
+                          'fail_kinds': [['refused'], ['timed_out', 'other'], ['not_found', 'denied', 'reset'], ['other']][len(stims) % 4],   # io::ErrorKind of failed attempts
+                          'ep_opts': [[], ['concurrency_limit'], [], ['rate_limit'], [], ['user_agent', 'buffer_size'], ['concurrency_limit', 'rate_limit']][len(stims) % 7]})   # other Endpoint options (tower layers around the connection)
     if not stims:
         raise ToolError('no scripts exported')
     if tier == 'thorough':
